@@ -511,6 +511,7 @@ func exitsOnCutFlag(li loopInfo, cut *ssa.Call) bool {
 
 func c18Term(p *Prog, rp *Report, fns []*ssa.Function, cursorFns map[*ssa.Function]string, parserOK, cmpOK bool, pm *parserModel, prod *productResult, why string) {
 	r := rp.Rule("C18-TERM", "every loop of the parsers terminates", 20)
+	var pendingLoops []pendingLoop
 	for _, fn := range fns {
 		loops := naturalLoops(fn)
 		sort.Slice(loops, func(i, j int) bool { return loops[i].header.Index < loops[j].header.Index })
@@ -553,7 +554,21 @@ func c18Term(p *Prog, rp *Report, fns []*ssa.Function, cursorFns map[*ssa.Functi
 			if ok {
 				r.ok(key, pos, how)
 			} else {
-				r.bad(key, pos, "this loop is neither a counted/range loop, nor a reader loop that leaves on a read error, nor a cursor loop of an explored parser: termination on every input is not established", nil)
+				pendingLoops = append(pendingLoops, pendingLoop{fn, li.header, key, pos})
+			}
+		}
+	}
+	// loops that no idiom classifies: bounded evidence from the scenario families (as for C18-BOUNDS)
+	if len(pendingLoops) > 0 {
+		runScenarioFamilies(p)
+		for _, pl := range pendingLoops {
+			switch {
+			case nontermFns[pl.fn] != "":
+				r.bad(pl.key, pl.pos, "no termination idiom applies to this loop, and the scenario families find a run that does not end: "+nontermFns[pl.fn], nil)
+			case blockCount[pl.header] > 0:
+				r.ok(pl.key, pl.pos, fmt.Sprintf("(bounded) no termination idiom applies; the loop was entered %d times by the scenario families of C03/C05/C07/C09/C10/C17 and every run ended within the step limit", blockCount[pl.header]))
+			default:
+				r.bad(pl.key, pl.pos, "this loop is neither a counted/range loop, nor a reader loop that leaves on a read error, nor a descent loop, nor a cursor loop of an explored parser, and no scenario family reaches it: termination on every input is not established", nil)
 			}
 		}
 	}
@@ -762,11 +777,7 @@ func c18Bounds(p *Prog, rp *Report, fns []*ssa.Function, cursorFns map[*ssa.Func
 	// checks that interpret these parsers (C03 version strings, C05 dependency fields, C07 reader scripts,
 	// C09/C10 documents, C17 changelog scripts). A site is accepted when those families went through it
 	// and no run panicked there; a panic at the site is the violation; a site never reached stays unproven.
-	for _, id := range []string{"C03", "C05", "C07", "C09", "C10", "C17"} {
-		if fn := registry[id]; fn != nil {
-			fn(p, NewReport(id, "quick"))
-		}
-	}
+	runScenarioFamilies(p)
 	for _, ps := range pending {
 		switch {
 		case execPanics[ps.ins] != "":
@@ -775,6 +786,28 @@ func c18Bounds(p *Prog, rp *Report, fns []*ssa.Function, cursorFns map[*ssa.Func
 			r.ok(ps.key, ps.pos, fmt.Sprintf("(bounded) no proof idiom applies (%s); interpreted %d times by the scenario families of C03/C05/C07/C09/C10/C17 without leaving the range", clip(ps.msg, 120), execCount[ps.ins]))
 		default:
 			r.bad(ps.key, ps.pos, ps.msg+" (and no scenario family reaches it)", nil)
+		}
+	}
+}
+
+type pendingLoop struct {
+	fn       *ssa.Function
+	header   *ssa.BasicBlock
+	key, pos string
+}
+
+// runScenarioFamilies interprets the families of the checks that exercise the parsers (once per process), so
+// that execCount / blockCount / execPanics / nontermFns describe what those families reach.
+var familiesRun = map[*Prog]bool{}
+
+func runScenarioFamilies(p *Prog) {
+	if familiesRun[p] {
+		return
+	}
+	familiesRun[p] = true
+	for _, id := range []string{"C03", "C05", "C07", "C09", "C10", "C17"} {
+		if fn := registry[id]; fn != nil {
+			fn(p, NewReport(id, "quick"))
 		}
 	}
 }
